@@ -231,3 +231,23 @@ EXPLANATION += (" Mahalanobis constructors: the matrix handed to lu() is the cov
                 "and is not written to before the factorisation; the LU routines it goes through (lu_mut, LU::new, inverse, solve) "
                 "compare data only with zero or with data-derived scales (E4, C01's binding evaluated here as well).")
 TECHNIQUE += "; provenance of the inverted matrix; E4 on the LU routines the constructors call"
+
+
+# ------------------------------------------------------------------ generic: no magnitude is compared with a signed raw element
+_run_pre_magnitude = run
+
+
+def run(ck, prog):
+    _run_pre_magnitude(ck, prog)
+    from sa import magnitude
+    magnitude.run_rule(ck, prog, set(DIMENSION_FILES))
+
+
+# ------------------------------------------------------------------ generic: backward strided scans (`j -= step`) continue exactly while j >= step
+_run_pre_subguard = run
+
+
+def run(ck, prog):
+    _run_pre_subguard(ck, prog)
+    from sa import subguard
+    subguard.run_rule(ck, prog, set(DIMENSION_FILES))
